@@ -273,6 +273,12 @@ def c18_stages(tier):
             DS('npz-q', 'MC_Distill_npz_q.cfg', shard_events=200)]
 
 
+# ------------------------------------------------------------------------------------------ renderings (C19)
+def c19_stages(tier):
+    return [Stage('format-rows', 'Trace_Format', mc=('MC_Format', 'MC_Format_l2.cfg' if tier == 'thorough' else 'MC_Format_l1.cfg'), shard_events=1000, mc_workers=12),
+            Stage('format-trees', 'Trace_Format', mc=('MC_AffTree', 'MC_AffTree_format_q.cfg'), shard_events=300, mc_workers=12)]
+
+
 def fault_stages(tier):
     if tier == 'thorough':
         return [HS('fault-t', 'MC_AffTree_fault_t.cfg')]
@@ -430,6 +436,23 @@ CHECKS = {
         'design_ref': 'DESIGN.md 6/C18',
         'rule': 'one script per call sequence / per file; distinct by canonical hash',
         'assumptions': ['argmax requires dimension >= 2 and yields shape 1 (documented behaviour of the argmax schema)'],
+    },
+    'C19': {
+        'level': 'model_checking',
+        'stages': c19_stages,
+        'level_text': 'Token level. Rows from an alphabet with negative zero, fractions, ties in magnitude and all-zero rows x every '
+                      'combination of FormatOptions from small ranges (sorting thresholds, simplify_zero, simplify_tautologies, normalize, axis '
+                      'and row skip ranges) x precisions x polytope / function view: the L1 token stream of impl_affineformat is model-checked '
+                      'against the faithfulness formulas; the real Display output is lexed by the harness and TLC checks per displayed row that '
+                      'every shown coefficient stands next to the index of the variable it multiplies with the stored sign and the stored '
+                      'magnitude at the printed precision (after the positive max-norm scaling when normalised), bias and direction, order under '
+                      'sorting, and that anything omitted is covered by an ellipsis. Trees (several arena layouts): DOT and Display contain '
+                      'exactly one statement per node / edge with the node\'s own function or predicate, kind flag, label and target.',
+        'level_note': 'The lexer of the harness (harness/src/format.rs, about 100 lines) is trusted. Values are multiples of 1/8; magnitudes are '
+                      'compared within half a unit of the last printed digit.',
+        'design_ref': 'DESIGN.md 6/C19',
+        'rule': 'one script per (rows, bias, options, precision, view) and per tree layout; distinct by canonical hash',
+        'assumptions': ['node shapes / styles in DOT are not part of the property'],
     },
     'C11': {
         'stages': fault_stages,
